@@ -38,7 +38,18 @@ Fold(c, toks) ==
         ELSE [a EXCEPT !.bad = "unknown event"]
   IN FoldLeft(f, [lexed |-> 0, count |-> 0, hit |-> FALSE, lastStart |-> 0, bad |-> ""], c.events)
 
-Verdict(c) ==
+\* A list of sources parsed by one call (multi = TRUE, srcs = their texts): the
+\* limit applies to each source on its own (every source gets a parser of its
+\* own), so the call succeeds exactly when every source parses and fits.
+MultiVerdict(c) ==
+  LET Ns == [k \in 1..Len(c.srcs) |-> Len(SelectSeq(LexAll(c.srcs[k]).toks, LAMBDA t : t.k # "EOF"))]
+      fits == c.limit = 0 \/ \A k \in 1..Len(c.srcs) : Ns[k] <= c.limit
+  IN IF c.ok # (c.ok0 /\ fits) THEN "limit not exact for a list of sources: ok=" \o ToString(c.ok) \o " although unlimited ok=" \o ToString(c.ok0)
+                                      \o ", tokens per source=" \o ToString(Ns) \o ", limit=" \o ToString(c.limit)
+     ELSE IF c.ok /\ c.tree # c.tree0 THEN "tree of a list of sources under a sufficient limit differs from the unlimited tree"
+     ELSE "ok"
+
+SingleVerdict(c) ==
   LET lex  == IF c.hasSrc THEN LexAll(c.src) ELSE [toks |-> <<>>, err |-> FALSE]
       N    == IF c.hasSrc THEN Len(SelectSeq(lex.toks, LAMBDA t : t.k # "EOF")) ELSE c.n
       a    == Fold(c, lex.toks)
@@ -51,6 +62,8 @@ Verdict(c) ==
      ELSE IF c.ok0 /\ ~fits /\ ~a.hit THEN "over-limit input failed without the limit check firing"
      ELSE IF fits /\ a.hit THEN "limit check fired although the input fits"
      ELSE "ok"
+
+Verdict(c) == IF c.multi THEN MultiVerdict(c) ELSE SingleVerdict(c)
 
 Init == i = 0 /\ bad = <<>> /\ n = 0
 Check == /\ i < Len(Cases)
